@@ -26,7 +26,7 @@ def run(chk):
         broken.append("proof obligations of Props/C08.v do not check: " + plog[-800:])
     g = evalgen.Gen(chk.rng)
     g.wild = 0.12
-    n = 20000 if thorough else 1500
+    n = 30000 if thorough else 9000
     cases = []
     for i in range(n):
         d = evalgen.gen_doc(chk.rng)
